@@ -755,6 +755,13 @@ func (s *State) script(goalNeg string) string {
 	for _, f := range empFacts {
 		b.WriteString("(assert " + f + ")\n")
 	}
+	// sentinel errors are plain errors.New values: none of them wraps another
+	ns := len(s.c.eng.sentinels())
+	for i := 1; i <= ns; i++ {
+		for j := 1; j <= ns; j++ {
+			b.WriteString(fmt.Sprintf("(assert (not (errIs (- %d) (- %d))))\n", i, j))
+		}
+	}
 	if len(s.c.litOrder) > 0 {
 		names := []string{"emp"}
 		for _, l := range s.c.litOrder {
